@@ -26,7 +26,9 @@ from vf.pool import pmap
 LEVEL = "exploration"
 BUDGET1 = 0.03  # CPU seconds per flow-solver call in the sweep (median call < 0.1 ms; networks have <= 8 nodes)
 BUDGET1_ASSIGN = 0.25  # solve_assignment on up to 6x6
-BUDGET2 = 1.0  # CPU seconds when a sweep time-out is re-run alone
+BUDGET2 = 1.0  # CPU seconds when a sweep time-out of min_cost_flow / solve_assignment is re-run alone
+BUDGET2_NS = 40.0  # the same for network_simplex: enough for its own max_iter=10^6 pivots on <= 8 nodes (2-10 CPU-s), so a
+#                    pivot loop that is only stopped by max_iter comes back and is judged on its result, not as a hang
 
 
 class _Timeout(Exception):
@@ -127,7 +129,7 @@ def st_shape(supplies):
     return None
 
 
-def eval_flow_case(case, budget=BUDGET1, only=None, oracle=None):
+def eval_flow_case(case, budget=BUDGET1, only=None, oracle=None, budget_ns=None):
     """case: kind 'flow', n, arcs [[u,v,cap,cost]], supplies, optional s,t (for demand 0), labels.  Runs network_simplex
     always and min_cost_flow when the instance is single-source single-sink.  Returns (violations, info)."""
     from solvor.flow import min_cost_flow
@@ -157,7 +159,7 @@ def eval_flow_case(case, budget=BUDGET1, only=None, oracle=None):
             r_m = res
         out += v
     if only in (None, "network_simplex"):
-        st, res = guarded(budget, network_simplex, n, [tuple(a) for a in arcs], list(supplies))
+        st, res = guarded(budget_ns or budget, network_simplex, n, [tuple(a) for a in arcs], list(supplies))
         v = judge("network_simplex", st, res, n, arcs, supplies, oracle)
         if st == "timeout":
             info["timeouts"].append("network_simplex")
@@ -211,10 +213,10 @@ def eval_assign_case(case, budget=BUDGET1_ASSIGN):
     return out, info
 
 
-def eval_case(case, budget=BUDGET1, only=None):
+def eval_case(case, budget=BUDGET1, only=None, budget_ns=None):
     if case["kind"] == "assign":
         return eval_assign_case(case, max(budget, BUDGET1_ASSIGN))
-    return eval_flow_case(case, budget, only)
+    return eval_flow_case(case, budget, only, budget_ns=budget_ns)
 
 
 def nontrivial(case):
@@ -455,7 +457,7 @@ def w_assign_exhaustive(job):
 def w_confirm(item):
     case, fname = item
     only = None if case["kind"] == "assign" else fname
-    out, info = eval_case(case, budget=BUDGET2, only=only)
+    out, info = eval_case(case, budget=BUDGET2, only=only, budget_ns=BUDGET2_NS)
     return case, fname, fname in info["timeouts"], [(ob, d) for ob, d in out if not ob.endswith("terminates")]
 
 
@@ -602,17 +604,19 @@ def run(ctx: Ctx):
     cap_n = 3 if ctx.quick else 12
     todo = []
     for f, lst in by_f.items():
-        todo += lst[:cap_n]
+        todo += lst[:cap_n] if not f.startswith("network_simplex") else lst[:max(1, cap_n // 3)]
+    todo.sort(key=lambda cf: cf[1] != "network_simplex")  # the long ones first
     confirmed = {}
     if todo:
-        for case, fname, still, other in pmap(w_confirm, todo, procs=8, chunksize=1):
+        for case, fname, still, other in pmap(w_confirm, todo, procs=16, chunksize=1):
             if still:
                 confirmed[fname] = confirmed.get(fname, 0) + 1
                 kq = qualified(f"C09/{fname}/ensures:terminates", case)
                 seen[kq] = seen.get(kq, 0) + 1
                 if seen[kq] <= 1:
                     ctx.violation(qualified(f"C09/{fname}/ensures:terminates", case), case,
-                                  f"no result within {BUDGET2} CPU-seconds when run alone (sweep budget {BUDGET1} s; median call < 1 ms)",
+                                  f"no result within {BUDGET2_NS if fname == 'network_simplex' else BUDGET2} CPU-seconds when run alone "
+                                  f"(sweep budget {BUDGET1} s; median call < 1 ms)",
                                   extra={"call_site": instance_shape(case)})
             else:
                 for ob, d in other:
@@ -635,8 +639,9 @@ def run(ctx: Ctx):
         "integer supplies summing to 0 / demand >= 0, source != sink, no self-loops",
         "parallel arcs: the solvers report one pooled value per node pair; 'cost equals sum of cost x flow' is read as: some split "
         "of the pooled value over the parallel arcs within their capacities has that cost",
-        "termination: a call that uses more than 1 CPU-second alone on a network with <= 8 nodes (median < 1 ms) is reported as "
-        "not terminating (network_simplex's own max_iter of 10^6 pivots is not waited for)",
+        "termination: min_cost_flow / solve_assignment calls that use more than 1 CPU-second alone on <= 8 nodes (median < 1 ms), "
+        "network_simplex calls that use more than 40 CPU-seconds (its own max_iter=10^6 pivots need 2-10 s there), are reported as not "
+        "terminating; sweep time-outs beyond the re-run cap are counted in coverage.timeouts, not judged",
         "LP duality for min-cost flow (feasible flow + potentials with complementary slackness => optimal); Gale's cut condition",
     ]
     ctx.trusted += ["oracles/flow_exact.py: mcf_exact (self-certifying through certify_optimal / certify_infeasible), mcf_brute, "
@@ -647,7 +652,7 @@ def replay(rec):
     use_repo()
     case = rec["case"]
     ob = rec.get("obligation", "")
-    out, info = eval_case(case, budget=BUDGET2)
+    out, info = eval_case(case, budget=BUDGET2, budget_ns=BUDGET2_NS)
     print("case:", case)
     if case["kind"] != "assign":
         o = oracle_for(case["n"], [tuple(a) for a in case["arcs"]], list(case["supplies"]))
